@@ -460,6 +460,35 @@ def guard_bounds(sink, taint):
     return {k: max(d[k] for d in per) for k in keys}
 
 
+def region_extent(base, taint):
+    """if `base` is the start of a region returned by a function listed under region_sums (start, length) — start + length
+    is the end address of an existing mapping, so it is representable — return the origin expression of that length"""
+    e = core(base)
+    if e[0] == "field" and e[2] == "0":
+        c = core(e[1])
+        if c[0] == "call" and any(c[1] == n or c[1].endswith("::" + n) for n in taint.t.get("region_sums", {})):
+            return ("field", e[1], "1")
+    return None
+
+
+def le_sym(k, B):
+    """k <= B by shape: B itself, B - x, x % B' with B' <= B, min with one such operand, 0, or a join of such values"""
+    k = core(k)
+    if _same(k, B):
+        return True
+    if is_const(k) and k[1] == 0:
+        return True
+    if k[0] == "bin" and k[1] in ("Sub", "SubUnchecked") and le_sym(k[2], B):
+        return True
+    if k[0] == "call" and lastseg(k[1]) == "saturating_sub" and k[2] and le_sym(k[2][0], B):
+        return True
+    if k[0] == "call" and lastseg(k[1]) == "min" and len(k[2]) == 2:
+        return le_sym(k[2][0], B) or le_sym(k[2][1], B)
+    if k[0] == "phi":
+        return all(x[0] != "loop" and le_sym(x, B) for x in k[1])
+    return False
+
+
 def range_discharge(sink, taint, op_types):
     """discharge by value ranges (type widths, masks, constant-compared guards)"""
     kind = sink.kind
@@ -472,7 +501,20 @@ def range_discharge(sink, taint, op_types):
         lim = TYPE_MAX.get(op_types[0] or "usize", (1 << 64) - 1)
         if a is not None and b is not None:
             r = a + b if kind.endswith("Add") else a * b
-            return r <= lim
+            if r <= lim:
+                return True
+        if kind == "Overflow:Mul":
+            # (x / y) * y <= x
+            for q, m in ((sink.ops[0], sink.ops[1]), (sink.ops[1], sink.ops[0])):
+                cq = core(q)
+                if cq[0] == "bin" and cq[1] == "Div" and _same(cq[3], m):
+                    return True
+            return False
+        # A + k with k <= B where A + B is the end address of an existing region (tables/taint.json: region_sums)
+        for base, k in ((sink.ops[0], sink.ops[1]), (sink.ops[1], sink.ops[0])):
+            B = region_extent(base, taint)
+            if B is not None and le_sym(k, B):
+                return True
         return False
     if kind in ("Overflow:Shl", "Overflow:Shr"):
         b = maxval(sink.ops[1], bounds)
